@@ -35,6 +35,8 @@ type Facts struct {
 	Validation     []RejectRule        `json:"validation"`     // the argument-validation chain of the redact Run closure, symbolically executed: ordered reject conditions
 	ValidationUnk  []string            `json:"validationUnknown"` // constructs of the chain the translator could not express (a translator failure)
 	Missing        []string            `json:"missing"`
+	Window         string              `json:"window"`         // GetStartAndEndDates translated to a Lean expression over now / atlasLogStartDate / atlasLogEndDate
+	WindowUnk      []string            `json:"windowUnknown"`
 	KeyLits        []string            `json:"keyLits"`        // string literals in key positions of the redaction path (comparisons, case clauses, call arguments, list elements)
 	Fingerprints   map[string]string   `json:"fingerprints"`   // function name -> size of its printed body (evidence only)
 }
@@ -364,6 +366,7 @@ func main() {
 	// ---- the key vocabulary of the redaction path
 	keyLiterals(byName, &facts)
 
+
 	// ---- uses of the private key (taint analysis, see privTaint)
 	privTaint(files, &facts)
 
@@ -459,6 +462,8 @@ func main() {
 		}
 	}
 	globalState(files, &facts)
+	// ---- GetStartAndEndDates, translated (after globalState: a package-level variable nothing assigns is a constant)
+	translateWindow(files, &facts)
 	for _, need := range []string{"anonymizer.go", "main.go", "atlas.go", "helpers.go", "reader.go", "encryption.go"} {
 		if byName[need] == nil {
 			facts.Missing = append(facts.Missing, "file "+need)
@@ -1410,4 +1415,157 @@ func keyLiterals(byName map[string]*ast.File, facts *Facts) {
 		}
 	}
 	sort.Strings(facts.KeyLits)
+}
+
+
+// ---------------------------------------------------------------------------------------------
+// GetStartAndEndDates (reader.go) translated to a Lean expression over Int: straight-line integer
+// code with early returns.  Supported: `if c { … }` (without else) whose body either ends in a return
+// or only assigns, `x := e` / `x = e`, `return a, b`, integer literals, identifiers, package-level
+// integer constants (inlined), + - *, comparisons, && || !, parentheses, int(…) conversions, and the
+// single clock read `time.Now().Unix()` (the parameter `now`).  Anything else is reported.
+type winTr struct {
+	consts map[string]ast.Expr
+	unk    []string
+}
+
+func (w *winTr) bad(n ast.Node, what string) string {
+	var sb strings.Builder
+	printer.Fprint(&sb, fset, n)
+	w.unk = append(w.unk, what+": "+sb.String()+" @"+pos(n))
+	return "0"
+}
+
+func (w *winTr) expr(e ast.Expr) string {
+	switch t := e.(type) {
+	case *ast.ParenExpr:
+		return "(" + w.expr(t.X) + ")"
+	case *ast.BasicLit:
+		if t.Kind == token.INT {
+			return "(" + t.Value + " : Int)"
+		}
+	case *ast.Ident:
+		if c, ok := w.consts[t.Name]; ok {
+			return "(" + w.expr(c) + ")"
+		}
+		return t.Name
+	case *ast.CallExpr:
+		if id, ok := t.Fun.(*ast.Ident); ok && (id.Name == "int" || id.Name == "int64") && len(t.Args) == 1 {
+			return w.expr(t.Args[0])
+		}
+		var sb strings.Builder
+		printer.Fprint(&sb, fset, t)
+		if sb.String() == "time.Now().Unix()" {
+			return "now"
+		}
+	case *ast.UnaryExpr:
+		if t.Op == token.NOT {
+			return "(!" + w.expr(t.X) + ")"
+		}
+		if t.Op == token.SUB {
+			return "(-" + w.expr(t.X) + ")"
+		}
+	case *ast.BinaryExpr:
+		ops := map[token.Token]string{token.ADD: "+", token.SUB: "-", token.MUL: "*", token.EQL: "==", token.NEQ: "!=", token.LSS: "<", token.GTR: ">",
+			token.LEQ: "<=", token.GEQ: ">=", token.LAND: "&&", token.LOR: "||"}
+		if o, ok := ops[t.Op]; ok {
+			a, b := w.expr(t.X), w.expr(t.Y)
+			switch t.Op {
+			case token.LSS, token.GTR, token.LEQ, token.GEQ:
+				return "(decide (" + a + " " + o + " " + b + "))"
+			}
+			return "(" + a + " " + o + " " + b + ")"
+		}
+	}
+	return w.bad(e, "expression")
+}
+
+func endsInReturn(stmts []ast.Stmt) bool {
+	if len(stmts) == 0 {
+		return false
+	}
+	_, ok := stmts[len(stmts)-1].(*ast.ReturnStmt)
+	return ok
+}
+
+func (w *winTr) block(stmts []ast.Stmt, depth int) string {
+	ind := strings.Repeat("  ", depth)
+	if len(stmts) == 0 {
+		w.unk = append(w.unk, "a path that falls off the end of the function")
+		return "(0, 0)"
+	}
+	st, rest := stmts[0], stmts[1:]
+	switch s := st.(type) {
+	case *ast.ReturnStmt:
+		if len(s.Results) == 2 {
+			return "(" + w.expr(s.Results[0]) + ", " + w.expr(s.Results[1]) + ")"
+		}
+		return w.bad(s, "return")
+	case *ast.AssignStmt:
+		if len(s.Lhs) == 1 && len(s.Rhs) == 1 {
+			if id, ok := s.Lhs[0].(*ast.Ident); ok && (s.Tok == token.ASSIGN || s.Tok == token.DEFINE) {
+				return "(let " + id.Name + " : Int := " + w.expr(s.Rhs[0]) + ";\n" + ind + w.block(rest, depth) + ")"
+			}
+		}
+		return w.bad(s, "assignment")
+	case *ast.IfStmt:
+		if s.Init != nil || s.Else != nil {
+			return w.bad(s, "if with init / else")
+		}
+		c := w.expr(s.Cond)
+		if endsInReturn(s.Body.List) {
+			return "(if " + c + " then\n" + ind + "  " + w.block(s.Body.List, depth+1) + "\n" + ind + "else\n" + ind + "  " + w.block(rest, depth+1) + ")"
+		}
+		// a body of plain assignments: each assigned variable becomes `if c then rhs else itself`, the condition evaluated once
+		out := "(let c_" + fmt.Sprint(depth) + " : Bool := " + c + ";\n" + ind
+		closers := ")"
+		for _, b := range s.Body.List {
+			as, ok := b.(*ast.AssignStmt)
+			if !ok || len(as.Lhs) != 1 || len(as.Rhs) != 1 || as.Tok != token.ASSIGN {
+				return w.bad(b, "statement in a conditional block")
+			}
+			id, ok := as.Lhs[0].(*ast.Ident)
+			if !ok {
+				return w.bad(b, "assignment target")
+			}
+			out += "(let " + id.Name + " : Int := if c_" + fmt.Sprint(depth) + " then " + w.expr(as.Rhs[0]) + " else " + id.Name + ";\n" + ind
+			closers += ")"
+		}
+		return out + w.block(rest, depth+1) + closers
+	}
+	return w.bad(st, "statement")
+}
+
+func translateWindow(files []*ast.File, facts *Facts) {
+	fd := funcDecl(files, "GetStartAndEndDates")
+	if fd == nil || fd.Body == nil {
+		facts.WindowUnk = []string{"func GetStartAndEndDates not found"}
+		return
+	}
+	w := &winTr{consts: map[string]ast.Expr{}}
+	for _, f := range files {
+		for _, d := range f.Decls {
+			if gd, ok := d.(*ast.GenDecl); ok && (gd.Tok == token.CONST || gd.Tok == token.VAR) {
+				for _, sp := range gd.Specs {
+					if vs, ok := sp.(*ast.ValueSpec); ok {
+						for k, n := range vs.Names {
+							if k < len(vs.Values) {
+								written := false
+								for _, gw := range facts.GlobalWrites {
+									if gw.Var == n.Name {
+										written = true // a package-level variable that something assigns is not a constant
+									}
+								}
+								if _, isInt := vs.Values[k].(*ast.CompositeLit); !written && !isInt {
+									w.consts[n.Name] = vs.Values[k]
+								}
+							}
+						}
+					}
+				}
+			}
+		}
+	}
+	facts.Window = w.block(fd.Body.List, 1)
+	facts.WindowUnk = w.unk
 }
